@@ -113,6 +113,22 @@ func makeRemoteSource(sourceType string, u *url.URL, subPath string) (RemoteSour
 		}
 	}
 
+	// The printed form of a remote source is "<URL path>//<sub-path>?<query>",
+	// and that text must lead back to the same package and sub-path. That
+	// only works for a hierarchical URL with a host, without a fragment (in
+	// which the parser would look for a sub-path, and which printing would
+	// move behind the sub-path), and without "//" inside the package path
+	// (which would read as the start of the sub-path).
+	if u.Opaque != "" || u.Host == "" {
+		return RemoteSource{}, fmt.Errorf("must be a URL with a hostname, like %s://example.com/...", u.Scheme)
+	}
+	if u.Fragment != "" || u.RawFragment != "" {
+		return RemoteSource{}, fmt.Errorf("must not include a URL fragment")
+	}
+	if strings.Contains(u.EscapedPath(), "//") {
+		return RemoteSource{}, fmt.Errorf("URL path must not contain \"//\" other than to introduce a sub-path")
+	}
+
 	err := typeImpl.PrepareURL(u)
 	if err != nil {
 		return RemoteSource{}, err
